@@ -25,6 +25,10 @@ use rayon::iter::{IntoParallelIterator, IntoParallelRefIterator, ParallelIterato
 mod data_structures;
 mod utils;
 
+/// Verification hooks (only with `--cfg arkworks_rs_poly_commit_verif`).
+#[cfg(arkworks_rs_poly_commit_verif)]
+pub mod verif_hooks;
+
 mod brakedown;
 
 mod ligero;
